@@ -70,25 +70,7 @@ def tx_offer(case, d, r, k):
     return [t for t in lst if ("H", "owner", t["owner"]) == k and pv.tx_valid(t)]
 
 
-def perm_set(b):
-    p = b.get("perm")
-    if p == "anyone":
-        return "anyone"
-    return frozenset([b["owner"]] + (p if isinstance(p, list) else []))
-
-
-def op_ok(b, o):
-    if o.get("addr") is not None and list(o["addr"]) != [b["owner"], b["meta"]]:
-        return False
-    if pv.entry_size(o) > 1024:
-        return False
-    ps = perm_set(b)
-    return True if ps == "anyone" else (o["writer"] in ps and o["sig"] == "ok")
-
-
-def reg_verifies(b):
-    return len(b.get("ops", [])) < 1024 and isinstance(b["osig"], dict) and b["osig"]["by"] == b["owner"] and \
-        all(op_ok(b, o) for o in b.get("ops", []))
+perm_set, op_ok, reg_verifies = pv.perm_set, pv.op_ok, pv.reg_verifies
 
 
 def reg_offer(case, d, r, k, stored):
@@ -194,7 +176,7 @@ def oracle(case, out):
                     elif (ka == "reg" and kb == "reg" or off) and got != want:
                         v.append(("reg-not-union", "delivery %d: register ops at %s are %s, expected the union %s"
                                   % (i, k, sorted(got), sorted(want))))
-        return v + pv.kind_change_violations(case, out)
+        return v + pv.kind_change_violations(case, out) + pv.rejection_violations(case, out)
     # overlapping deliveries: whatever the interleaving, nothing validly delivered may be lost
     before, after = pv.dump_map(out["store_before"]), pv.dump_map(out["store"])
     for k in keys:
@@ -225,7 +207,7 @@ def oracle(case, out):
             if not want <= got:
                 v.append(("concurrent-lost-update", "overlapping deliveries to %s (schedule %s): register operation(s) %s validly delivered but not stored"
                           % (k, case["schedule"], sorted(want - got))))
-    return v + pv.kind_change_violations(case, out)
+    return v + pv.kind_change_violations(case, out) + pv.rejection_violations(case, out)
 
 
 # ------------------------------------------------------------------------------------------- generator
@@ -350,7 +332,7 @@ def concurrent_cases(rng, thorough):
 
 def gen(ctx):
     thorough = ctx.tier != "quick"
-    cs = concurrent_cases(ctx.rng, thorough) + pv.cross_kind_cases() + pv.back_to_back_cases() + pv.raw_chunk_cases() + pv.pad_boundary_cases()
+    cs = concurrent_cases(ctx.rng, thorough) + pv.cross_kind_cases() + pv.back_to_back_cases() + pv.raw_chunk_cases() + pv.pad_boundary_cases() + pv.reg_branch_cases() + pv.forged_update_cases()
     n = 350 if not thorough else 6000
     cs += [rand_history(ctx.rng) for _ in range(n)]
     return cs
